@@ -4,6 +4,7 @@ import (
 	"bytes"
 	"fmt"
 	"os"
+	"sort"
 	"time"
 
 	"github.com/KevoDB/kevo/pkg/common/iterator"
@@ -38,9 +39,18 @@ func (e *DefaultCompactionExecutor) CompactFiles(task *CompactionTask) ([]string
 	// Create a merged iterator over all input files
 	var iterators []iterator.Iterator
 
-	// Add iterators from both levels
+	// Add iterators from both levels. The hierarchical iterator gives precedence
+	// to earlier sources, so lower (newer) levels come first and, within a level,
+	// the most recently written file comes first.
 	for level := 0; level <= task.TargetLevel; level++ {
-		for _, file := range task.InputFiles[level] {
+		files := append([]*SSTableInfo(nil), task.InputFiles[level]...)
+		sort.SliceStable(files, func(i, j int) bool {
+			if files[i].Timestamp != files[j].Timestamp {
+				return files[i].Timestamp > files[j].Timestamp
+			}
+			return files[i].Sequence > files[j].Sequence
+		})
+		for _, file := range files {
 			// We need an iterator that preserves delete markers
 			if file.Reader != nil {
 				iterators = append(iterators, file.Reader.NewIterator())
